@@ -19,6 +19,10 @@ def gen_file(rng, nlines, *, bad_rate=0.0, bad_at=(), nfeat=3, card=(2, 5, 9)):
         lab = rng.randrange(2)
         feats = [str((lab + rng.randrange(card[i % len(card)])) % card[i % len(card)]) for i in range(nfeat)]
         if not bad:
+            if rng.random() < 0.03:
+                # non-ASCII text: OutRank reads csv files as latin-1, so a UTF-8 'Å' arrives as 'Ã' + U+0085; together with the
+                # form feed / file separator these are characters str.splitlines() cuts at although they do not end a line of a file
+                feats[0] = rng.choice(['Å', '\x0c', '\x1c', 'é']) + feats[0]
             if nfeat >= 2 and rng.random() < 0.03:
                 # a well-formed row whose quoted cell holds the delimiter (more raw delimiters than fields)
                 lines.append(','.join([str(p), f'"{feats[0]},{feats[0]}"'] + feats[1:] + [str(lab)]) + '\n')
